@@ -27,7 +27,7 @@ CONSTANTS
  ConnRMs = {99999}
  ConnTAMs = {99999}
  ConnMPSs = {99999}
- ConnSEIs = {10}
+ ConnSEIs = {10, 99999}
  SPs = {TRUE}
  ConnackRcs = {0}
  AckRMs = {99999}
@@ -53,4 +53,5 @@ CONSTANTS
  Regulate_ = FALSE
  OptFlips = {}
  FreeIdSends = FALSE
+ LateSends = FALSE
  Msgs = {"m1"}
